@@ -108,6 +108,23 @@ def graph_cases(tier):
 def chain_docs(tier):
     docs = []
     # straight use chains of length 1..5 ending in a shape, and ending in a cycle back to the head
+    for L in (5, 6) if tier == "quick" else (6, 7):
+        # longer branching cycles: each element refers twice / three times to the next (growth must stay bounded however many
+        # distinct targets take part)
+        for fan in (2, 3):
+            cyc = "".join(f'<g id="u{i}"><rect width="2" height="2"/>' + f'<use xlink:href="#u{(i + 1) % L}" x="1"/>' * fan + "</g>" for i in range(L))
+            docs.append(("branching-use-cycle", f'<svg {NS} viewBox="0 0 100 100"><defs>{cyc}</defs><use xlink:href="#u0"/></svg>'))
+            selfref = "".join(f'<g id="u{i}"><rect width="2" height="2"/>' + f'<use xlink:href="#u{i}" x="1"/>' * fan + (f'<use xlink:href="#u{i + 1}"/>' if i + 1 < L else "") + "</g>" for i in range(L))
+            docs.append(("selfref-chain", f'<svg {NS} viewBox="0 0 100 100"><defs>{selfref}</defs><use xlink:href="#u0"/></svg>'))
+    # a self-referencing group next to n OTHER, innocent use targets (whatever bound depends on the number of targets must not
+    # let the cyclic part grow in the meantime)
+    for fan in (1, 2, 3, 4):
+        for others in (1, 4, 10) if tier == "quick" else (1, 2, 4, 6, 10, 20):
+            loop = '<g id="a"><rect width="2" height="2"/>' + "".join(f'<use xlink:href="#a" x="{3 * (i + 1)}" y="{i}"/>' for i in range(fan)) + "</g>"
+            od = "".join(f'<rect id="s{i}" width="1" height="1"/>' for i in range(others))
+            ob = "".join(f'<use xlink:href="#s{i}" x="{2 * i}" y="10"/>' for i in range(others))
+            docs.append(("selfref-among-others", f'<svg {NS} viewBox="0 0 100 100"><defs>{loop}{od}</defs>{ob}<use xlink:href="#a"/></svg>'))
+            docs.append(("selfref-among-idle-ids", f'<svg {NS} viewBox="0 0 100 100"><defs>{loop}{od}</defs><use xlink:href="#a"/></svg>'))
     for L in range(1, 6 if tier == "thorough" else 4):
         defs = "".join(f'<use id="u{i}" xlink:href="#u{i + 1}" x="1"/>' for i in range(L - 1)) + f'<use id="u{L - 1}" xlink:href="#leaf"/>'
         docs.append(("use-chain", f'<svg {NS} viewBox="0 0 100 100"><defs>{defs}<rect id="leaf" width="5" height="5"/></defs><use xlink:href="#u0"/></svg>'))
@@ -149,6 +166,17 @@ def chain_docs(tier):
             docs.append(("plainhref-branching-use-cycle", f'<svg {NS} viewBox="0 0 100 100"><defs>{cyc}</defs><use href="#u0"/></svg>'))
             gr = "".join(f'<linearGradient id="g{i}" {att(i)}="#g{(i + 1) % L}"/>' for i in range(L))
             docs.append(("plainhref-gradient-cycle", f'<svg {NS} viewBox="0 0 100 100"><defs>{gr}</defs><rect width="80" height="80" fill="url(#g0)" transform="translate(1 1)"/></svg>'))
+            # the xlink namespace declared where it is used (on the use / on a wrapper / under another prefix), not on the root
+            NSL = 'xmlns="http://www.w3.org/2000/svg"'
+            XL = 'xmlns:xl="http://www.w3.org/1999/xlink"'
+            cyc = "".join(f'<use id="u{i}" {XL} xl:href="#u{(i + 1) % L}" x="1"/>' for i in range(L))
+            docs.append(("localns-use-cycle", f'<svg {NSL} viewBox="0 0 100 100"><defs>{cyc}</defs><use {XL} xl:href="#u0"/></svg>'))
+            cyc = "".join(f'<g id="u{i}"><rect width="2" height="2"/>' + f'<use xl:href="#u{(i + 1) % L}" x="1"/>' * 2 + "</g>" for i in range(L))
+            docs.append(("localns-branching-use-cycle", f'<svg {NSL} viewBox="0 0 100 100"><g {XL}><defs>{cyc}</defs><use xl:href="#u0"/></g></svg>'))
+            cyc = "".join(f'<use id="u{i}" xmlns:xlink="http://www.w3.org/1999/xlink" xlink:href="#u{(i + 1) % L}" x="1"/>' for i in range(L))
+            docs.append(("localns-use-cycle", f'<svg {NSL} viewBox="0 0 100 100"><defs>{cyc}</defs><use xmlns:xlink="http://www.w3.org/1999/xlink" xlink:href="#u0"/></svg>'))
+            gr = "".join(f'<linearGradient id="g{i}" {XL} xl:href="#g{(i + 1) % L}"/>' for i in range(L))
+            docs.append(("localns-gradient-cycle", f'<svg {NSL} viewBox="0 0 100 100"><defs>{gr}</defs><rect width="80" height="80" fill="url(#g0)" transform="translate(1 1)"/></svg>'))
             for u in US:
                 cref = lambda i: (u if sel(i) else "url(#{})").format(f"c{(i + 1) % L}")
                 cl = "".join(f'<clipPath id="c{i}" clip-path="{cref(i)}"><rect width="{50 - i}" height="50"/></clipPath>' for i in range(L))
